@@ -19,4 +19,4 @@ for C in "$@"; do
   echo "$N vs $C: exit=$RC $(( $(date +%s) - S ))s $(grep -E 'violations by kind|machinery error|kind=crash' "$L/$C.out" | head -2 | cut -c1-200 | tr '\n' ' ')"
   cp "$L/$C.out" /tmp/lab/$N-$C.out
 done
-git -C /repo worktree remove --force "$L/repo"; rm -rf "$L"
+[ -n "$LAB_KEEP" ] || { git -C /repo worktree remove --force "$L/repo"; rm -rf "$L"; }
